@@ -140,6 +140,8 @@ def match_known(mis, prop, known):
             continue
         if "got" in k and k["got"] != mis.get("got"):
             continue
+        if "exp" in k and k["exp"] != mis.get("exp"):
+            continue
         if "outcome" in k:
             kind_of = "panic" if is_panic(mis.get("got")) else "value"
             if k["outcome"] != kind_of:
